@@ -398,6 +398,44 @@ func c08Check(c *c08Case, res *core.CaseResult) {
 	}
 }
 
+// c08TypedArguments: statements of the core language whose argument the parser also takes apart (key, unique,
+// range, length, must, pattern, augment, if-feature), written over several lines, with more than one blank,
+// with tabs and as concatenations: the argument reported is still the RFC 6020 value of what was written.
+func c08TypedArguments(res *core.CaseResult) {
+	type ta struct{ kw, raw, want string } // raw: source form of the argument
+	args := []ta{
+		{"key", "\"a b\"", "a b"}, {"key", "\"a  b\"", "a  b"}, {"key", "'a\tb'", "a\tb"}, {"key", "\"a\n         b\"", "a\nb"},
+		{"key", "\"a \" + 'b'", "a b"}, {"key", "'a' + \"  \" + 'b'", "a  b"},
+		{"unique", "\"a  b\"", "a  b"}, {"unique", "\"a\n            b\"", "a\nb"}, {"unique", "'a\tb'", "a\tb"},
+	}
+	for i, a := range args {
+		body := "    leaf a { type string; }\n    leaf b { type string; }\n    leaf k { type string; }\n"
+		stmt := "    " + a.kw + " " + a.raw + ";\n"
+		if a.kw == "unique" {
+			stmt = "    key k;\n" + stmt
+		}
+		text := "module m {\n  namespace \"urn:m\";\n  prefix m;\n  list l {\n" + stmt + body + "  }\n}\n"
+		var tree *parse.Tree
+		var err error
+		pan, msg, _ := core.Guard(func() { tree, err = parse.Parse("c08-typed.yang", text, nil) })
+		res.Ev("typed_arguments_checked", 1)
+		res.Key(text)
+		switch {
+		case pan:
+			res.Fail("C08/parse-panic", text, msg)
+		case err != nil:
+			res.Fail("C08/valid-argument-rejected/typed", text, err.Error())
+		default:
+			n := findStmt(tree.Root, a.kw)
+			if n == nil {
+				res.Fail("C08/statement-missing", text, a.kw+" not found in the tree")
+			} else if got := n.Argument().String(); got != a.want {
+				res.Fail("C08/decoded-argument/typed-statement", text, fmt.Sprintf("case %d: RFC 6020 value %q, parser gives %q", i, a.want, got))
+			}
+		}
+	}
+}
+
 // c08ManyStatements: one module with 6000 statements whose arguments are concatenations of three short pieces
 // (18000 pieces in all): each argument is a value of its own, whatever was decoded before it.
 func c08ManyStatements(res *core.CaseResult) {
@@ -445,6 +483,9 @@ func (p *c08) Run(tier string, seed int64, idx int) core.CaseResult {
 	var res core.CaseResult
 	if idx == 0 {
 		c08ManyStatements(&res)
+	}
+	if idx == 1 {
+		c08TypedArguments(&res)
 	}
 	c := p.gen(tier, seed, idx)
 	c08Check(c, &res)
